@@ -80,6 +80,12 @@ const unsupportedContentEncoding = "Unsupported content encoding, hot reload scr
 
 func (h *Handler) modifyResponse(r *http.Response) error {
 	log := h.log.With(slog.String("url", r.Request.URL.String()))
+	if r.Request.Method == http.MethodHead {
+		// A response to a HEAD request has no body: there is nothing to insert the script into, and its
+		// Content-Length describes the resource.
+		log.Debug("Skipping response modification because the request method is HEAD")
+		return nil
+	}
 	if r.Header.Get("templ-skip-modify") == "true" {
 		log.Debug("Skipping response modification because templ-skip-modify header is set")
 		return nil
